@@ -12,16 +12,19 @@ variable {σ π : Type} [PsInv σ]
 /-- what an alphaBeta-like function guarantees about scores. -/
 def ABRange (Good : Board → Prop) (TTok : σ → Prop) (child : Child σ) : Prop :=
   ∀ a b d ply nt s, Good s.board → 0 ≤ ply → ply ≤ 63 → WinOK a b → TTok s.ps →
-    TTok (child a b d ply nt s).2.ps ∧ ((child a b d ply nt s).2.aborted = false → InR (child a b d ply nt s).1)
+    TTok (child a b d ply nt s).2.ps ∧ ((child a b d ply nt s).2.aborted = false → RelP ply (child a b d ply nt s).1)
 
 omit [PsInv σ] in
 theorem callChild_range {Good : Board → Prop} {TTok : σ → Prop} (child : Child σ) (hr : ABRange Good TTok child)
     (a b : Score) (d : Int) {ply : Int} (h0 : 0 ≤ ply) (h1 : ply < 63) (nt : NodeType) (s : St σ) (hg : Good s.board)
     (hw : WinOK a b) (htt : TTok s.ps) :
     let o := callChild child a b d (wrapS8 (ply + 1)) nt s
-    TTok o.2.ps ∧ (o.2.aborted = false → InR o.1) := by
+    TTok o.2.ps ∧ (o.2.aborted = false → RelP ply o.1) := by
   have := hr a b d (wrapS8 (ply + 1)) nt s hg (by rw [wrapS8_succ h0 h1]; omega) (by rw [wrapS8_succ h0 h1]; omega) hw htt
-  exact ⟨this.1, fun h => neg_inR (this.2 h)⟩
+  have e := wrapS8_succ h0 h1
+  generalize wrapS8 (ply + 1) = q at this e ⊢
+  subst e
+  exact ⟨this.1, fun h => neg_relP h0 (this.2 h)⟩
 
 theorem searchRest_range (c : Comp σ π) (L : Limits) {Good : Board → Prop} {TTok : σ → Prop} (child : Child σ)
     (htk : ∀ ps, TTok ps → PsInv.ok ps)
@@ -29,7 +32,7 @@ theorem searchRest_range (c : Comp σ π) (L : Limits) {Good : Board → Prop} {
     (hg : Good s.board) (h0 : 0 ≤ x.ply) (h1 : x.ply < 63) (htt : TTok s.ps)
     (ha1 : -10001 ≤ l.alpha) (ha2 : l.alpha ≤ 10000) (hb1 : -10000 ≤ x.beta) (hb2 : x.beta ≤ 32767) :
     let o := searchRest child x l next s
-    TTok o.2.ps ∧ (o.2.aborted = false → InR o.1) := by
+    TTok o.2.ps ∧ (o.2.aborted = false → RelP x.ply o.1) := by
   simp only [searchRest]
   have c2 := callChild_post c L child hc (wrapS16 (neg l.alpha - 1)) (neg l.alpha) (wrapS8 (x.d - 1)) h0 h1 next s hg
     (htk _ htt)
@@ -52,7 +55,7 @@ theorem searchMove_range (c : Comp σ π) (L : Limits) {Good : Board → Prop} {
     (ha0 : -32767 ≤ l.alpha) (ha2 : l.alpha ≤ 10000) (hlow : 2 ≤ l.quietCnt → -10000 ≤ l.alpha)
     (hb1 : -10000 ≤ x.beta) (hb2 : x.beta ≤ 32767) :
     let o := searchMove c child x l next s
-    TTok o.2.ps ∧ (o.2.aborted = false → InR o.1) := by
+    TTok o.2.ps ∧ (o.2.aborted = false → RelP x.ply o.1) := by
   simp only [searchMove]
   split
   · next hlmr =>
@@ -74,16 +77,17 @@ theorem searchMove_range (c : Comp σ π) (L : Limits) {Good : Board → Prop} {
       · exact r1
       · exact searchRest_range c L child sl.tt_ok hc hr x l next o1.2 hg1 h0 h1 r1.1 ha1 ha2 hb1 hb2
     · split
-      · exact ⟨htt, fun _ => inR_zero⟩
+      · exact ⟨htt, fun _ => relP_zero _⟩
       · exact searchRest_range c L child sl.tt_ok hc hr x l next s hg h0 h1 htt ha1 ha2 hb1 hb2
   · exact callChild_range child hr (neg x.beta) (neg l.alpha) (wrapS8 (x.d - 1)) h0 h1 next s hg
       (winOK_full ha0 ha2 hb1 hb2) htt
 
 /-- the invariant of the move loop at its head (`alpha0` = the node's alpha on entry). -/
-structure ABInv (alpha0 : Int) (l : ABLoop π) : Prop where
+structure ABInv (ply alpha0 : Int) (l : ABLoop π) : Prop where
   a1 : -32767 ≤ l.alpha
   a2 : l.alpha ≤ 10000
   m1 : l.hasLegal = true → InR l.maxim
+  mp : l.hasLegal = true → RelP ply l.maxim
   m0 : l.hasLegal = false → l.maxim = -10001
   qc : l.quietCnt ≤ l.moveCnt
   mc : 0 ≤ l.moveCnt
@@ -95,6 +99,11 @@ theorem maxim_step {value maxim : Int} (hv : InR value) (hm : InR maxim ∨ maxi
   unfold InR at *
   split <;> omega
 
+theorem maxim_step_rel {p value maxim : Int} (hv : RelP p value) (hm : RelP p maxim ∨ maxim = -10001) :
+    RelP p (if value > maxim then value else maxim) := by
+  unfold RelP hiP at *
+  split <;> omega
+
 theorem maxim_le {value maxim alpha : Int} (hv : InR value) (hva : value ≤ alpha) (hm : maxim = -10001 ∨ maxim ≤ alpha) :
     (if value > maxim then value else maxim) ≤ alpha := by
   unfold InR at *
@@ -102,19 +111,24 @@ theorem maxim_le {value maxim alpha : Int} (hv : InR value) (hva : value ≤ alp
 
 /-- `abAfter` on a loop record `l` that `abEnter` has just updated. -/
 theorem abAfter_range (c : Comp σ π) (L : Limits) {Good : Board → Prop} {TTok : σ → Prop} {μ : Board → Nat}
-    (sl : ScoreLaws c Good TTok μ) (x : ABCtx) (m : Move) (r : Board.Reverse)
-    (l : ABLoop π) (value : Score) (s : St σ) (alpha0 : Int) (htt : TTok s.ps) (hv : s.aborted = false → InR value)
+    (hlw : Laws c Good) (sl : ScoreLaws c Good TTok μ) (x : ABCtx) (m : Move) (r : Board.Reverse)
+    (l : ABLoop π) (value : Score) (s : St σ) (alpha0 : Int) (h0 : 0 ≤ x.ply) (h1 : x.ply < 63) (htt : TTok s.ps)
+    (hgb : Good (s.board.undoMove m r)) (hmb : m ∈ MoveGen.gen (s.board.undoMove m r))
+    (hv : s.aborted = false → RelP x.ply value)
     (a1 : -32767 ≤ l.alpha) (a2 : l.alpha ≤ 10000) (hm : InR l.maxim ∨ l.maxim = -10001)
+    (hmp : RelP x.ply l.maxim ∨ l.maxim = -10001)
     (qc : l.quietCnt ≤ l.moveCnt) (mc : 1 ≤ l.moveCnt) (hleg : l.hasLegal = true)
     (fl : l.failLow = true → l.alpha = alpha0 ∧ (l.maxim = -10001 ∨ l.maxim ≤ l.alpha)) :
     let o := abAfter c L x m r l value s
-    TTok o.2.ps ∧ (∀ v, o.1 = .ret v → o.2.aborted = false → InR v) ∧
-      (∀ l', (o.1 = .cont l' ∨ o.1 = .brk l') → ABInv alpha0 l') := by
+    TTok o.2.ps ∧ (∀ v, o.1 = .ret v → o.2.aborted = false → RelP x.ply v) ∧
+      (∀ l', (o.1 = .cont l' ∨ o.1 = .brk l') → ABInv x.ply alpha0 l') := by
   simp only [abAfter]
   have hps := abort_ps L (s.setBoard (s.board.undoMove m r)).pop
   have hfa := @abort_false σ _ L (s.setBoard (s.board.undoMove m r)).pop
   have hat := abort_true_iff L (s.setBoard (s.board.undoMove m r)).pop
-  generalize abort L (s.setBoard (s.board.undoMove m r)).pop = as at hps hfa hat ⊢
+  have hbd : (abort L (s.setBoard (s.board.undoMove m r)).pop).2.board = s.board.undoMove m r :=
+    (abort_frame L (s.setBoard (s.board.undoMove m r)).pop).board
+  generalize abort L (s.setBoard (s.board.undoMove m r)).pop = as at hps hfa hat hbd ⊢
   have htt' : TTok as.2.ps := by rw [hps]; exact htt
   split
   · next hab =>
@@ -122,25 +136,29 @@ theorem abAfter_range (c : Comp σ π) (L : Limits) {Good : Board → Prop} {TTo
     rw [← hat, hab] at hna; cases hna
   · next hab =>
     have hab' : as.1 = false := by simpa using hab
-    have hvr : InR value := hv (by simpa using (hfa hab').2)
+    have hvp : RelP x.ply value := hv (by simpa using (hfa hab').2)
+    have hvr : InR value := hvp.inR h0
     have hmx : InR (if value > l.maxim then value else l.maxim) := maxim_step hvr hm
+    have hmxp : RelP x.ply (if value > l.maxim then value else l.maxim) := maxim_step_rel hvp hmp
     split
     · next hgt =>
       have hgt' : (l.alpha : Int) < value := hgt
       split
-      · refine ⟨sl.tt_failHigh _ _ _ _ _ (sl.tt_store _ _ _ _ _ _ _ htt' hvr), fun v hv' _ => ?_,
+      · refine ⟨sl.tt_failHigh _ _ _ _ _ (sl.tt_store _ _ _ _ _ _ _ htt' h0 (by omega) hvp
+            (hlw.ok_store _ _ _ _ _ _ _ (sl.tt_ok _ htt') (by rw [hbd]; exact hgb) (Or.inr (by rw [hbd]; exact hmb)))),
+          fun v hv' _ => ?_,
           (fun l' h => by rcases h with h | h <;> cases h)⟩
-        cases hv'; exact hvr
-      · have hinv : ABInv alpha0 { l with maxim := (if value > l.maxim then value else l.maxim), pick := c.setWeight l.pick value, failLow := false, alpha := value, bestMove := m } :=
-          ⟨Int.le_trans (by decide) hvr.1, hvr.2, fun _ => hmx, (fun h => by rw [hleg] at h; cases h), qc,
+        cases hv'; exact hvp
+      · have hinv : ABInv x.ply alpha0 { l with maxim := (if value > l.maxim then value else l.maxim), pick := c.setWeight l.pick value, failLow := false, alpha := value, bestMove := m } :=
+          ⟨Int.le_trans (by decide) hvr.1, hvr.2, fun _ => hmx, fun _ => hmxp, (fun h => by rw [hleg] at h; cases h), qc,
            Int.le_trans (by decide) mc, fun _ => hvr.1, (fun h => by cases h)⟩
         split
         · exact ⟨htt', (fun v h => by cases h), fun l' h => by rcases h with h | h <;> cases h; exact hinv⟩
         · exact ⟨htt', (fun v h => by cases h), fun l' h => by rcases h with h | h <;> cases h; exact hinv⟩
     · next hle =>
       have hle' : value ≤ (l.alpha : Int) := Int.not_lt.1 hle
-      have hinv : ABInv alpha0 { l with maxim := (if value > l.maxim then value else l.maxim), pick := c.setWeight l.pick (-Inf) } :=
-        ⟨a1, a2, fun _ => hmx, (fun h => by rw [hleg] at h; cases h), qc, Int.le_trans (by decide) mc,
+      have hinv : ABInv x.ply alpha0 { l with maxim := (if value > l.maxim then value else l.maxim), pick := c.setWeight l.pick (-Inf) } :=
+        ⟨a1, a2, fun _ => hmx, fun _ => hmxp, (fun h => by rw [hleg] at h; cases h), qc, Int.le_trans (by decide) mc,
          fun _ => Int.le_trans hvr.1 hle', fun h => ⟨(fl h).1, fun _ => maxim_le hvr hle' (fl h).2⟩⟩
       split
       · exact ⟨htt', (fun v h => by cases h), fun l' h => by rcases h with h | h <;> cases h; exact hinv⟩
@@ -151,25 +169,28 @@ theorem abLoop_range (c : Comp σ π) (L : Limits) {Good : Board → Prop} {TTok
     (hc : ABSpec c L Good child) (hr : ABRange Good TTok child) (x : ABCtx) (h0 : 0 ≤ x.ply) (h1 : x.ply < 63)
     (hb1 : -10000 ≤ x.beta) (hb2 : x.beta ≤ 32767) (hmv : Move) (alpha0 : Int) :
     ∀ (n : Nat) (l : ABLoop π) (s : St σ), Good s.board → s.board.fifty < 100 → HashOK c s.board hmv →
-      Reach c s.board hmv l.pick l.yielded → TTok s.ps → ABInv alpha0 l →
+      Reach c s.board hmv l.pick l.yielded → TTok s.ps → ABInv x.ply alpha0 l →
+      (l.bestMove = 0 ∨ l.bestMove ∈ MoveGen.gen s.board) →
       let o := abLoop c L child x n l s
-      TTok o.2.ps ∧ (∀ v, o.1 = .ret v → o.2.aborted = false → InR v) ∧ (∀ l', o.1 = .done l' → ABInv alpha0 l') := by
+      TTok o.2.ps ∧ (∀ v, o.1 = .ret v → o.2.aborted = false → RelP x.ply v) ∧
+        (∀ l', o.1 = .done l' → ABInv x.ply alpha0 l' ∧ (l'.bestMove = 0 ∨ l'.bestMove ∈ MoveGen.gen s.board) ∧
+          o.2.board = s.board) := by
   intro n
   induction n with
-  | zero => intro l s _ _ _ _ htt _; exact ⟨htt, (fun v _ h => by cases h), fun l' h => by cases h⟩
+  | zero => intro l s _ _ _ _ htt _ _; exact ⟨htt, (fun v _ h => by cases h), fun l' h => by cases h⟩
   | succ n ih =>
-    intro l s hg hfl hhash hreach htt hinv
+    intro l s hg hfl hhash hreach htt hinv hbest
     simp only [abLoop]
     split
-    · exact ⟨htt, (fun v h => by cases h), fun l' h => by cases h; exact hinv⟩
+    · exact ⟨htt, (fun v h => by cases h), fun l' h => by cases h; exact ⟨hinv, hbest, rfl⟩⟩
     · next m pk hpick =>
       have hmem : m ∈ MoveGen.gen s.board := hl.pick_mem _ _ _ _ _ _ _ _ hg hhash hreach (sl.tt_ok _ htt) hpick
       have hreach' : Reach c s.board hmv pk (m :: l.yielded) := Reach.next hreach (sl.tt_ok _ htt) hpick
       have hu := hl.undo_make s.board m hg hmem
-      have hinv0 : ABInv alpha0 { l with pick := pk, yielded := m :: l.yielded } :=
-        ⟨hinv.a1, hinv.a2, hinv.m1, hinv.m0, hinv.qc, hinv.mc, hinv.lo, hinv.fl⟩
+      have hinv0 : ABInv x.ply alpha0 { l with pick := pk, yielded := m :: l.yielded } :=
+        ⟨hinv.a1, hinv.a2, hinv.m1, hinv.mp, hinv.m0, hinv.qc, hinv.mc, hinv.lo, hinv.fl⟩
       split
-      · rw [hu, setBoard_self]; exact ih _ s hg hfl hhash hreach' htt hinv0
+      · rw [hu, setBoard_self]; exact ih _ s hg hfl hhash hreach' htt hinv0 hbest
       · next hchk =>
         have hchk' : (s.board.makeMove c.keys m).1.inCheck s.board.stm = false := by simpa using hchk
         have hg' := hl.good_make s.board m hg hfl hmem hchk'
@@ -186,6 +207,11 @@ theorem abLoop_range (c : Comp σ π) (L : Limits) {Good : Board → Prop} {TTok
           cases hh : l.hasLegal
           · exact Or.inr (hinv.m0 hh)
           · exact Or.inl (hinv.m1 hh)
+        have hmxp : RelP x.ply l2.maxim ∨ l2.maxim = -10001 := by
+          rw [e_maxim]
+          cases hh : l.hasLegal
+          · exact Or.inr (hinv.m0 hh)
+          · exact Or.inl (hinv.mp hh)
         have hlow : 2 ≤ l2.quietCnt → -10000 ≤ l2.alpha := by
           intro h2; rw [e_alpha]; exact hinv.lo (by have := hinv.qc; omega)
         have hfl2 : l2.failLow = true → l2.alpha = alpha0 ∧ (l2.maxim = -10001 ∨ l2.maxim ≤ l2.alpha) := by
@@ -211,15 +237,23 @@ theorem abLoop_range (c : Comp σ π) (L : Limits) {Good : Board → Prop} {TTok
           rw [hsm.1.board]; simpa using hu
         have ha := abAfter_spec c L hl x m (s.board.makeMove c.keys m).2 l2 r.1 r.2
           (by rw [hub]; exact hg) (by rw [hub]; exact hmem)
-        have har := abAfter_range c L sl x m (s.board.makeMove c.keys m).2 l2 r.1 r.2 alpha0 hsr.1 hsr.2
-          (by rw [e_alpha]; exact hinv.a1) (by rw [e_alpha]; exact hinv.a2) hmx
+        have hbm := abAfter_best c L x m (s.board.makeMove c.keys m).2 l2 r.1 r.2
+        have har := abAfter_range c L hl sl x m (s.board.makeMove c.keys m).2 l2 r.1 r.2 alpha0 h0 h1 hsr.1
+          (by rw [hub]; exact hg) (by rw [hub]; exact hmem) hsr.2
+          (by rw [e_alpha]; exact hinv.a1) (by rw [e_alpha]; exact hinv.a2) hmx hmxp
           (by rw [e_mc]; have := hinv.qc; omega) (by rw [e_mc]; have := hinv.mc; omega) e_leg hfl2
         simp only at ha har
-        generalize abAfter c L x m (s.board.makeMove c.keys m).2 l2 r.1 r.2 = o at ha har ⊢
+        generalize abAfter c L x m (s.board.makeMove c.keys m).2 l2 r.1 r.2 = o at ha har hbm ⊢
         obtain ⟨hsf, _, _⟩ := hsm
         obtain ⟨_, hb1', _, _, _, hpick'⟩ := ha
         obtain ⟨htt', hret, hcb⟩ := har
         have hboard : o.2.board = s.board := by rw [hb1', hsf.board]; simpa using hu
+        have hbest2 : ∀ l', (o.1 = .cont l' ∨ o.1 = .brk l') → l'.bestMove = 0 ∨ l'.bestMove ∈ MoveGen.gen s.board := by
+          intro l' h'
+          have e2 : l2.bestMove = l.bestMove := by rw [← hl2]; rfl
+          rcases hbm l' h' with e | e
+          · rw [e, e2]; exact hbest
+          · rw [e]; exact Or.inr hmem
         obtain ⟨st, s'⟩ := o
         cases st with
         | ret v =>
@@ -229,26 +263,28 @@ theorem abLoop_range (c : Comp σ π) (L : Limits) {Good : Board → Prop} {TTok
         | brk l' =>
           refine ⟨htt', (fun v h => by cases h), fun l'' h => ?_⟩
           have : l' = l'' := by simpa using h
-          subst this; exact hcb l' (Or.inr rfl)
+          subst this; exact ⟨hcb l' (Or.inr rfl), hbest2 l' (Or.inr rfl), hboard⟩
         | cont l' =>
           simp only at hboard htt' ⊢
           have hr2 : Reach c s'.board hmv l'.pick l'.yielded := by
             obtain ⟨hy, w, hw⟩ := hpick' l' (Or.inl rfl)
             rw [hboard, hy, hw, ← hl2]
             exact Reach.weight hreach'
-          exact ih l' s' (by rw [hboard]; exact hg) (by rw [hboard]; exact hfl) (by rw [hboard]; exact hhash) hr2 htt'
-            (hcb l' (Or.inl rfl))
+          have := ih l' s' (by rw [hboard]; exact hg) (by rw [hboard]; exact hfl) (by rw [hboard]; exact hhash) hr2 htt'
+            (hcb l' (Or.inl rfl)) (by rw [hboard]; exact hbest2 l' (Or.inl rfl))
+          rw [hboard] at this
+          exact this
 
 theorem nullMove_range (c : Comp σ π) {Good : Board → Prop} {TTok : σ → Prop} (hl : Laws c Good) (child : Child σ)
     (hr : ABRange Good TTok child) (beta : Score) (d : Int) {ply : Int} (h0 : 0 ≤ ply) (h1 : ply < 63) (se : Score)
     (s : St σ) (hg : Good s.board) (hchk : s.board.inCheck s.board.stm = false) (htt : TTok s.ps)
-    (hb1 : -10000 ≤ beta) (hb2 : beta ≤ 10000) :
+    (hb1 : -9936 ≤ beta) (hb2 : beta ≤ 9936) :
     let o := nullMove c child beta d ply se s
-    TTok o.2.ps ∧ (∀ v, o.1 = some v → o.2.aborted = false → InR v) := by
+    TTok o.2.ps ∧ (∀ v, o.1 = some v → o.2.aborted = false → RelP ply v) := by
   simp only [nullMove]
   have hg' := hl.good_null s.board hg hchk
   have rr := callChild_range child hr (neg beta) (wrapS16 (neg beta + 1)) (c.nmpDepth d se beta) h0 h1 .cut
-    (s.setBoard (s.board.makeNull c.keys).1) hg' (winOK_nmp hb1 hb2) htt
+    (s.setBoard (s.board.makeNull c.keys).1) hg' (winOK_nmp (Int.le_trans (by decide) hb1) (Int.le_trans hb2 (by decide))) htt
   simp only at rr
   generalize callChild child (neg beta) (wrapS16 (neg beta + 1)) (c.nmpDepth d se beta) (wrapS8 (ply + 1)) .cut
     (s.setBoard (s.board.makeNull c.keys).1) = r at rr ⊢
@@ -257,7 +293,7 @@ theorem nullMove_range (c : Comp σ π) {Good : Board → Prop} {TTok : σ → P
     simp only [Option.some.injEq] at hv
     subst hv
     split
-    · exact ⟨hb1, hb2⟩
+    · unfold RelP hiP; simp only [Score] at *; omega
     · exact rr.2 hna
   · exact ⟨rr.1, fun v hv => by cases hv⟩
 
@@ -268,7 +304,7 @@ theorem abMoves_range (c : Comp σ π) (L : Limits) {Good : Board → Prop} {TTo
     (nt : NodeType) (inCheck improving : Bool) (se : Score) (hm : Move) (s : St σ) (hg : Good s.board)
     (hfl : s.board.fifty < 100) (hhash : HashOK c s.board hm) (htt : TTok s.ps) :
     let o := abMoves c L child alpha beta d ply nt inCheck improving se hm s
-    TTok o.2.ps ∧ (o.2.aborted = false → InR o.1) := by
+    TTok o.2.ps ∧ (o.2.aborted = false → RelP ply o.1) := by
   simp only [abMoves]
   generalize hx : ABCtx.mk alpha beta (if c.iir nt d hm then wrapS8 (d - 1) else d) ply nt inCheck improving se = x
   have hxp : x.ply = ply := by rw [← hx]
@@ -279,9 +315,9 @@ theorem abMoves_range (c : Comp σ π) (L : Limits) {Good : Board → Prop} {TTo
     ((MoveGen.gen s.board).length + 1)
     { alpha := alpha, bestMove := 0, hasLegal := false, failLow := true, maxim := -Inf - 1, moveCnt := 0, quietCnt := 0,
       pick := c.pickInit s.board hm, yielded := [] } s.pushFrame hg hfl hhash Reach.init htt
-    ⟨hw1, hw2, (fun h => by cases h), (fun _ => rfl), Int.le_refl _, Int.le_refl _, (fun h => by simp at h),
-     fun _ => ⟨rfl, fun h => by cases h⟩⟩
-  simp only at h
+    ⟨hw1, hw2, (fun h => by cases h), (fun h => by cases h), (fun _ => rfl), Int.le_refl _, Int.le_refl _, (fun h => by simp at h),
+     fun _ => ⟨rfl, fun h => by cases h⟩⟩ (Or.inl rfl)
+  simp only [hxp] at h
   generalize abLoop c L child x ((MoveGen.gen s.board).length + 1)
     { alpha := alpha, bestMove := 0, hasLegal := false, failLow := true, maxim := -Inf - 1, moveCnt := 0, quietCnt := 0,
       pick := c.pickInit s.board hm, yielded := [] } s.pushFrame = r at h ⊢
@@ -290,36 +326,45 @@ theorem abMoves_range (c : Comp σ π) (L : Limits) {Good : Board → Prop} {TTo
   cases fl with
   | ret v => exact ⟨htt', fun hna => hret v rfl hna⟩
   | done l =>
-    have hinv := hdone l rfl
+    obtain ⟨hinv, hbest, hbrd⟩ := hdone l rfl
+    have hgb : Good s'.popFrame.board := by
+      have : s'.board = s.board := hbrd
+      show Good s'.board
+      rw [this]; exact hg
+    have hbest' : l.bestMove = 0 ∨ l.bestMove ∈ MoveGen.gen s'.popFrame.board := by
+      have : s'.board = s.board := hbrd
+      show l.bestMove = 0 ∨ l.bestMove ∈ MoveGen.gen s'.board
+      rw [this]; exact hbest
+    have hok' := sl.tt_ok _ htt'
     simp only [flag_ps, setPs_ps]
     cases hh : l.hasLegal
-    · have hmx : InR (if inCheck = true then wrapS16 (-Inf + ply) else 0) := by
+    · have hmx : RelP ply (if inCheck = true then wrapS16 (-Inf + ply) else 0) := by
         split
-        · exact inR_mate h0 (by omega)
-        · exact inR_zero
+        · exact relP_mate h0 (by omega)
+        · exact relP_zero _
       simp only [Bool.not_false, if_true, Bool.false_eq_true, if_false]
-      exact ⟨sl.tt_store _ _ _ _ _ _ _ htt' hmx, fun _ => hmx⟩
-    · have hmx := hinv.m1 hh
+      exact ⟨sl.tt_store _ _ _ _ _ _ _ htt' h0 (by omega) hmx (hl.ok_store _ _ _ _ _ _ _ hok' hgb hbest'), fun _ => hmx⟩
+    · have hmx := hinv.mp hh
       simp only [Bool.not_true, Bool.false_eq_true, if_false]
       refine ⟨?_, fun _ => hmx⟩
       split
-      · exact sl.tt_store _ _ _ _ _ _ _ htt' hmx
-      · exact sl.tt_store _ _ _ _ _ _ _ htt' hmx
+      · exact sl.tt_store _ _ _ _ _ _ _ htt' h0 (by omega) hmx (hl.ok_store _ _ _ _ _ _ _ hok' hgb (Or.inl rfl))
+      · exact sl.tt_store _ _ _ _ _ _ _ htt' h0 (by omega) hmx (hl.ok_store _ _ _ _ _ _ _ hok' hgb hbest')
 
 theorem abPrune_range (c : Comp σ π) (L : Limits) {Good : Board → Prop} {TTok : σ → Prop} {μ : Board → Nat}
     (hl : Laws c Good) (sl : ScoreLaws c Good TTok μ) (child : Child σ)
     (hc : ABSpec c L Good child) (hr : ABRange Good TTok child) (alpha beta : Score) (hw : WinOK alpha beta) (d : Int)
     {ply : Int} (h0 : 0 ≤ ply) (h1 : ply < 63)
-    (nt : NodeType) (inCheck improving : Bool) (se : Score) (hse : inCheck = false → InR se) (hm : Move) (s : St σ)
+    (nt : NodeType) (inCheck improving : Bool) (se : Score) (hse : inCheck = false → -9935 ≤ se ∧ se ≤ 9935) (hm : Move) (s : St σ)
     (hg : Good s.board) (hfl : s.board.fifty < 100) (hhash : HashOK c s.board hm)
     (hic : inCheck = s.board.inCheck s.board.stm) (htt : TTok s.ps) :
     let o := abPrune c L child alpha beta d ply nt inCheck improving se hm s
-    TTok o.2.ps ∧ (o.2.aborted = false → InR o.1) := by
+    TTok o.2.ps ∧ (o.2.aborted = false → RelP ply o.1) := by
   simp only [abPrune]
   split
   · next hrfp =>
     have : inCheck = false := by cases inCheck <;> simp_all
-    exact ⟨htt, fun _ => hse this⟩
+    exact ⟨htt, fun _ => by have := hse this; unfold RelP hiP; simp only [Score] at *; omega⟩
   · split
     · next hnm =>
       have hic' : inCheck = false := by cases inCheck <;> simp_all
@@ -327,9 +372,10 @@ theorem abPrune_range (c : Comp σ π) (L : Limits) {Good : Board → Prop} {TTo
       have hnmp : c.nmpTry s.board d se beta = true := by
         simp only [Bool.and_eq_true] at hnm; exact hnm.2
       have hbse : (beta : Int) ≤ se := sl.nmp_sound _ _ _ _ hnmp
-      have hb2 : beta ≤ 10000 := Int.le_trans hbse (hse hic').2
+      have hb2 : beta ≤ 9936 := Int.le_trans hbse (Int.le_trans (hse hic').2 (by decide))
+      have hb1 : -9936 ≤ beta := sl.nmp_floor _ _ _ _ hnmp
       have hn := nullMove_spec c L hl child hc beta d h0 h1 se s hg (sl.tt_ok _ htt) hchk
-      have hnr := nullMove_range c hl child hr beta d h0 h1 se s hg hchk htt hw.2.2.1 hb2
+      have hnr := nullMove_range c hl child hr beta d h0 h1 se s hg hchk htt hb1 hb2
       simp only at hn hnr
       generalize nullMove c child beta d ply se s = nm at hn hnr ⊢
       split
@@ -344,7 +390,7 @@ theorem abBody_range (c : Comp σ π) (L : Limits) {Good : Board → Prop} {TTok
     {ply : Int} (h0 : 0 ≤ ply) (h1 : ply < 63) (nt : NodeType) (s : St σ) (hg : Good s.board)
     (hfl : s.board.fifty < 100) (htt : TTok s.ps) :
     let o := abBody c L child alpha beta d ply nt s
-    TTok o.2.ps ∧ (o.2.aborted = false → InR o.1) := by
+    TTok o.2.ps ∧ (o.2.aborted = false → RelP ply o.1) := by
   simp only [abBody]
   split
   · next v hcut =>
@@ -352,14 +398,14 @@ theorem abBody_range (c : Comp σ π) (L : Limits) {Good : Board → Prop} {TTok
     split at hcut
     · next e he =>
       split at hcut
-      · exact ttCut_inR (sl.tt_probe _ _ _ _ htt he) hcut
+      · exact ttCut_relP (sl.tt_probe _ _ _ _ htt h0 (by omega) he) hcut
       · cases hcut
     · cases hcut
   · refine abPrune_range c L hl sl child hc hr alpha beta hw d h0 h1 nt _ _ _ ?_ _ s hg hfl
       (hashOK_probe c (sl.tt_ok _ htt) s.board ply) rfl htt
     intro h
     simp only [h, Bool.false_eq_true, if_false]
-    exact inR_eval c s.board
+    exact eval_band c s.board
 
 /-- The main range theorem: for every fuel, `alphaBeta` returns an in-range value when it returns
     un-aborted, and never breaks the table predicate. -/
@@ -389,7 +435,7 @@ theorem alphaBeta_range (c : Comp σ π) (L : Limits) {Good : Board → Prop} {T
       split
       · next hab => exact ⟨by rw [hps]; exact htt, fun hna => by rw [← hat, hab] at hna; cases hna⟩
       · split
-        · exact ⟨by rw [hps]; exact htt, fun _ => inR_zero⟩
+        · exact ⟨by rw [hps]; exact htt, fun _ => relP_zero _⟩
         · next hnd =>
           exact abBody_range c L hl sl (alphaBeta c L fuel) (alphaBeta_spec c L hl fuel) ih a b hw d h0 h1 nt as.2
             (by rw [hb]; exact hg) (fifty_lt_of_not_draw hnd) (by rw [hps]; exact htt)
